@@ -57,3 +57,8 @@ func (r *RIB) VerifRefCounts() map[string]VerifRefCount {
 	}
 	return out
 }
+
+// VerifSetClock replaces the function the package reads the wall clock with
+// (unixTS). The harness owns the clock of a run: it can step it forwards or
+// backwards, or freeze it, at chosen points.
+func VerifSetClock(now func() int64) { unixTS = now }
